@@ -108,7 +108,11 @@ func execC20(caseText string) string {
 			}
 		case "file":
 			if len(ts) >= 5 {
-				return c20execFileDesc(ts[1] == "rev", ts[2] == "crlf", ts[3] == "nl", ts[4:])
+				crlf, crp, ok := c20parseEol(ts[2])
+				if !ok {
+					return "bad-case"
+				}
+				return c20execFileDesc(ts[1] == "rev", crlf, crp, ts[3] == "nl", ts[4:])
 			}
 		case "raw":
 			if len(ts) == 3 {
@@ -589,7 +593,37 @@ func c20parseRuns(ts []string) ([]int, bool) {
 	return lens, true
 }
 
-func c20execFileDesc(rev, crlf, nl bool, runs []string) string {
+// c20crAt: is byte j of line idx (of n bytes) a lone carriage return under pattern p (0 = never)? Line idx gets the
+// pattern q = (p + 5 idx) mod 16 — bit 0: first byte, bit 1: last byte, bit 2: last but one, bit 3: every j with j mod 53 = 17.
+// (Drive/C20.lean: crAt)
+func c20crAt(p, idx, n, j int) bool {
+	if p == 0 {
+		return false
+	}
+	q := (p + 5*idx) % 16
+	return (q&1 != 0 && j == 0) || (q&2 != 0 && j+1 == n) || (q&4 != 0 && j+2 == n) || (q&8 != 0 && j%53 == 17)
+}
+
+// "lf" | "crlf" | "lf:cr5" | "crlf:cr12"
+func c20parseEol(t string) (crlf bool, crp int, ok bool) {
+	e, c, has := strings.Cut(t, ":")
+	if e != "lf" && e != "crlf" {
+		return false, 0, false
+	}
+	if has {
+		if !strings.HasPrefix(c, "cr") {
+			return false, 0, false
+		}
+		n, err := strconv.Atoi(c[2:])
+		if err != nil || n < 1 || n > 15 {
+			return false, 0, false
+		}
+		crp = n
+	}
+	return e == "crlf", crp, true
+}
+
+func c20execFileDesc(rev, crlf bool, crp int, nl bool, runs []string) string {
 	lens, ok := c20parseRuns(runs)
 	if !ok {
 		return "bad-case"
@@ -601,7 +635,11 @@ func c20execFileDesc(rev, crlf, nl bool, runs []string) string {
 	var content []byte
 	for i, n := range lens {
 		for j := 0; j < n; j++ {
-			content = append(content, c20contentByte(i, j))
+			if c20crAt(crp, i, n, j) {
+				content = append(content, '\r')
+			} else {
+				content = append(content, c20contentByte(i, j))
+			}
 		}
 		if i < len(lens)-1 || nl {
 			if crlf {
@@ -1319,7 +1357,10 @@ func c20runs(lens []int) string {
 	return strings.Join(parts, " ")
 }
 
-func c20fileCase(c *Ctx, rev, crlf, nl bool, lens []int) {
+func c20fileCase(c *Ctx, rev, crlf, nl bool, lens []int) { c20fileCaseCR(c, rev, crlf, 0, nl, lens) }
+
+// crp > 0: lone carriage returns inside the line contents (c20crAt)
+func c20fileCaseCR(c *Ctx, rev, crlf bool, crp int, nl bool, lens []int) {
 	if !nl && len(lens) > 0 && lens[len(lens)-1] == 0 {
 		nl = true
 		lens = lens[:len(lens)-1]
@@ -1333,6 +1374,9 @@ func c20fileCase(c *Ctx, rev, crlf, nl bool, lens []int) {
 	}
 	if nl {
 		t = "nl"
+	}
+	if crp > 0 {
+		e = fmt.Sprintf("%s:cr%d", e, crp)
 	}
 	c.Case(len(lens) >= 2, fmt.Sprintf("file %s %s %s %s", d, e, t, c20runs(lens)))
 }
@@ -1351,28 +1395,35 @@ func genC20Files(c *Ctx) {
 	r := c.Rng
 	c.Case(false, "missing fwd")
 	c.Case(false, "missing rev")
-	// exhaustive small scope: every file made of up to 6 (thorough 8) units out of {"a", "\n", "\r\n"}, both directions
-	units := []string{"a", "\n", "\r\n"}
-	maxUnits := c.Pick(6, 9)
-	var rec func(cur string, k int)
-	rec = func(cur string, k int) {
-		h := c20hex([]byte(cur))
-		if h == "" {
-			h = "-"
+	// exhaustive small scope, both directions: every file made of up to 6 (thorough 9) units out of {"a", "\n", "\r\n"},
+	// and every file made of up to 5 (thorough 7) units out of {"a", "\n", "\r\n", "\r"} — a lone carriage return is
+	// line CONTENT (only one '\r' directly before the '\n' belongs to the terminator): "\ra\r\r\n", "a\r", "\r", "\r\r\n",
+	// "a\r\na\r" … Each distinct file once.
+	seen := map[string]bool{}
+	var rec func(units []string, maxUnits int, cur string, k int)
+	rec = func(units []string, maxUnits int, cur string, k int) {
+		if !seen[cur] {
+			seen[cur] = true
+			h := c20hex([]byte(cur))
+			if h == "" {
+				h = "-"
+			}
+			nt := strings.Count(cur, "\n") >= 2 || (strings.Count(cur, "\n") == 1 && !strings.HasSuffix(cur, "\n"))
+			c.Case(nt, "raw fwd "+h)
+			c.Case(nt, "raw rev "+h)
 		}
-		nt := strings.Count(cur, "\n") >= 2 || (strings.Count(cur, "\n") == 1 && !strings.HasSuffix(cur, "\n"))
-		c.Case(nt, "raw fwd "+h)
-		c.Case(nt, "raw rev "+h)
 		if k >= maxUnits {
 			return
 		}
 		for _, u := range units {
-			rec(cur+u, k+1)
+			rec(units, maxUnits, cur+u, k+1)
 		}
 	}
-	rec("", 0)
+	rec([]string{"a", "\n", "\r\n"}, c.Pick(6, 9), "", 0)
+	rec([]string{"a", "\n", "\r\n", "\r"}, c.Pick(5, 7), "", 0)
 	// histories on ONE stream value: the file appears, disappears or changes between two materialisations
-	hist := []string{"M", "-", c20hex([]byte("a\n")), c20hex([]byte("a\nbb\nccc")), c20hex([]byte("\nx\r\ny\n")), c20hex([]byte(strings.Repeat("line\n", 1200)))}
+	hist := []string{"M", "-", c20hex([]byte("a\n")), c20hex([]byte("a\nbb\nccc")), c20hex([]byte("\nx\r\ny\n")), c20hex([]byte(strings.Repeat("line\n", 1200))),
+		c20hex([]byte("\ra\r\r\nb\r\n\r\n"))}
 	for _, a := range hist {
 		for _, b := range hist {
 			c.Case(a != b, "hraw fwd "+a+" "+b)
@@ -1447,6 +1498,65 @@ func genC20Files(c *Ctx) {
 			total += ln + 1
 		}
 		c20fileCase(c, r.Intn(3) > 0, r.Intn(3) == 0, r.Intn(5) > 0, lens)
+	}
+	// lone carriage returns INSIDE the line contents (first byte, last byte, last but one, sprinkled), at the buffer
+	// boundary lengths: the line is everything up to the '\n' minus at most one '\r', in both directions
+	crSingle := []int{1, 2, 3, 2047, 2048, 4095, 4096, 4097, 8192, 16384, 32766, 32767, 65535}
+	for _, ln := range crSingle {
+		for _, lens := range [][]int{{ln}, {1, ln}, {ln, 1}} {
+			for _, p := range []int{1, 2, 15} {
+				c20fileCaseCR(c, false, false, p, true, lens)
+				c20fileCaseCR(c, true, false, p, true, lens)
+				c20fileCaseCR(c, false, true, p, true, lens)
+				c20fileCaseCR(c, true, true, p, true, lens)
+				c20fileCaseCR(c, false, false, p, false, lens)
+			}
+		}
+	}
+	for _, l := range [][]int{c20rep(30, 300), c20rep(1, 4100), c20rep(2, 3000), c20rep(2047, 7), c20rep(4095, 4), c20rep(4096, 3), {10, 32766, 32766, 100, 100, 100, 65535}} {
+		for _, p := range []int{3, 7, 9} {
+			c20fileCaseCR(c, false, false, p, true, l)
+			c20fileCaseCR(c, true, false, p, true, l)
+			c20fileCaseCR(c, true, true, p, true, l)
+			c20fileCaseCR(c, false, true, p, false, l)
+		}
+	}
+	// seeded random, with lone carriage returns (a loop of its own: the random cases above stay what they were)
+	n2 := c.Pick(130, 6000)
+	for i := 0; i < n2; i++ {
+		var lens []int
+		total := 0
+		k := 1 + r.Small(14)
+		if r.Intn(6) == 0 {
+			k = 20 + r.Intn(400)
+		}
+		budget := 40000
+		if r.Intn(4) == 0 {
+			budget = 250000
+		}
+		for j := 0; j < k && total < budget; j++ {
+			var ln int
+			switch r.Intn(10) {
+			case 0, 1, 2:
+				ln = r.Intn(5)
+			case 3, 4:
+				ln = r.Intn(60)
+			case 5:
+				ln = r.Intn(3000)
+			case 6, 7:
+				ln = boundary[r.Intn(3)] + r.Range(-3, 3)
+			case 8:
+				ln = boundary[r.Intn(len(boundary))] + r.Range(-3, 3)
+			default:
+				ln = r.Intn(40000)
+			}
+			if k > 20 {
+				ln = ln % 200
+			}
+			lens = append(lens, ln)
+			total += ln + 1
+		}
+		c20fileCaseCR(c, r.Intn(2) > 0, r.Intn(3) == 0, 1+r.Intn(15), r.Intn(5) > 0, lens)
 	}
 }
 
